@@ -48,3 +48,15 @@ Proof. exact (@consec_items_ok). Qed.
 Theorem C14_columns : forall R (SP : RSpec R) (H : RegionOK R) (O : IC nat) (HO : ICOk O) chk (I : Items R) (IS : ISpec I),
   ItemsOK R I -> ItemsOK (columns R O chk) (columns_items O chk I).
 Proof. exact (@columns_items_ok). Qed.
+
+(** The tie to the terms the correspondence runs: for EVERY region of the catalogue (the [entry]
+    function extracted to OCaml), except entries 21 and 29 (see C01_catalogue), the read items meet
+    the item laws above: index denotes read, borrow_as/into_owned are inverse, clone_onto is total
+    and exact, pushing a read item is pushing the value it denotes. *)
+From FC Require Import Model.Wire Model.Catalogue Model.CatalogueOk.
+Theorem C14_catalogue : forall chk szs n e, entry chk szs n = Some e -> n <> 21%N -> n <> 29%N ->
+  exists (SP : RSpec (mr e)) (IS : ISpec (mi e)), @RegionOK (mr e) SP /\ @ItemsOK (mr e) SP (mi e) IS.
+Proof.
+  intros chk szs n e He H21 H29. destruct (catalogue_full chk szs He H21 H29) as (SP & IS & HR & HI & _).
+  exists SP, IS. split; assumption.
+Qed.
